@@ -127,6 +127,39 @@ func init() {
 				emitBatched(emit, nil, dInt(nil, ip(1000), &u), allOps(uvals, "u", "c"), 60)
 				emitBatched(emit, nil, dFloat(nil, nil, &u), allOps(uvals, "u", "c"), 60)
 				emitBatched(emit, nil, dEnumInt([]int64{0, 60, math.MinInt64, math.MaxInt64}, &u), allOps(uvals, "u", "c"), 60)
+				// blank texts (white space only) and padded texts: against the int, float and int-enum reading with this
+				// definition (0 admitted, so that "blank read as zero" is an acceptance), as a leaf, as a list item, as a map
+				// value and as a map KEY of each of the three
+				var bvals, lvals, mvals, kvals []*sx.Node
+				for _, txt := range unitBlankAndPadded(u) {
+					bvals = append(bvals, vS(txt))
+					lvals = append(lvals, vSl(tAnySlice, vS(txt)))
+					mvals = append(mvals, vM(tStrMap, vS("k"), vS(txt)))
+					kvals = append(kvals, vM(tAnyMap, vS(txt), vS("v")))
+				}
+				for _, leaf := range []*sx.Node{dInt(nil, nil, &u), dInt(ip(0), ip(100000), &u), dFloat(nil, nil, &u), dEnumInt([]int64{0, 3, 7, 60}, &u)} {
+					emitBatched(emit, nil, leaf, allOps(bvals, ops4...), 60)
+					emitBatched(emit, nil, dList(leaf, nil, nil), allOps(lvals, "u", "c"), 60)
+					emitBatched(emit, nil, dMap(dString(nil, nil, nil), leaf, nil, nil), allOps(mvals, "u", "c"), 60)
+					if leaf.Head() != "float" { // map keys: string, int, enums only
+						emitBatched(emit, nil, dMap(leaf, dString(nil, nil, nil), nil, nil), allOps(kvals, "u", "c"), 60)
+					}
+				}
+			}
+			// the same blank and padded texts for the readings WITHOUT units (strconv.ParseInt / ParseFloat do not trim) and for
+			// booleans (the word table is looked up untrimmed): leaves and map keys
+			{
+				var bvals, kvals []*sx.Node
+				for _, txt := range append(append([]string{}, blankStrings...), append(paddedForms("0"), paddedForms("7")...)...) {
+					bvals = append(bvals, vS(txt))
+					kvals = append(kvals, vM(tAnyMap, vS(txt), vS("v")))
+				}
+				for _, leaf := range []*sx.Node{dInt(nil, nil, nil), dFloat(nil, nil, nil), dEnumInt([]int64{0, 7}, nil), dBool()} {
+					emitBatched(emit, nil, leaf, allOps(bvals, ops4...), 60)
+					if leaf.IsList() && leaf.Head() != "float" {
+						emitBatched(emit, nil, dMap(leaf, dString(nil, nil, nil), nil, nil), allOps(kvals, "u", "c"), 60)
+					}
+				}
 			}
 			// ---- floats ----
 			fcfgs := [][2]*float64{{nil, nil}, {fp(-5.5), nil}, {nil, fp(10.25)}, {fp(-5.5), fp(10.25)}, {fp(1), fp(2)}, {fp(2), fp(1)},
